@@ -129,70 +129,92 @@ func runC04(c *Ctx) {
 	// R4.2
 	r.Rule("R4.2", "length gates dominate decoding: v1 — a `len(payload) != sizeNormal` test with an error return is passed before the field loop; v2 — when len(payload) < sizeExtended the slice entering the loop is a zero-extended one of sizeExtended bytes; "+
 		"the gates compare against the codec's own size fields", 2)
-	var v1If, v2If *ssa.If
+	// isV2 tests: edges on which isV2 is true / false
+	v2True, v2False := map[edge]bool{}, map[edge]bool{}
 	for _, iff := range ifsIn(rd) {
-		switch ex(iff.Cond) {
-		case "(len(arg0.Payload) != int(recv.sizeNormal))":
-			v1If = iff
-		case "(len(arg0.Payload) < int(recv.sizeExtended))":
-			v2If = iff
+		if tb, fb, hit := succWhen(iff, "arg1"); hit {
+			v2True[edge{iff.Block(), tb}] = true
+			v2False[edge{iff.Block(), fb}] = true
 		}
 	}
-	var isV2If *ssa.If
-	for _, iff := range ifsIn(rd) {
-		if ex(iff.Cond) == "arg1" && iff.Block() == rd.Blocks[0] {
-			isV2If = iff
-		}
-	}
-	firstValueCall := callsNamed(rd, "message.readValue")
-	if isV2If == nil || len(firstValueCall) == 0 {
+	valueCalls := callsNamed(rd, "message.readValue")
+	if len(v2True) == 0 || len(valueCalls) == 0 {
 		r.Broken("R4.2", "ReadWriter.Read structure", "isV2 dispatch / readValue calls not found")
 	} else {
+		// v1: exact-length gate
+		var v1If *ssa.If
+		var v1Pass, v1Fail *ssa.BasicBlock
+		for _, iff := range ifsIn(rd) {
+			if tb, fb, hit := succWhen(iff, "(len(arg0.Payload) != int(recv.sizeNormal))"); hit {
+				v1If, v1Fail, v1Pass = iff, tb, fb
+			}
+		}
 		ok := v1If != nil
 		whyV1 := "no `len(payload) != sizeNormal` test on the v1 path: v1 payloads of the wrong length are decoded (index panic or garbage)"
 		if ok {
-			tb := v1If.Block().Succs[0]
-			ret, isRet := tb.Instrs[len(tb.Instrs)-1].(*ssa.Return)
-			ok = isRet && len(ret.Results) == 2 && !isNilConst(ret.Results[1]) && edgeMustPass(rd, edge{isV2If.Block(), isV2If.Block().Succs[1]}, v1If.Block())
-			// from the v1 branch, the loop is reachable only via the gate's false edge
-			reach := reachFrom(isV2If.Block().Succs[1], map[edge]bool{{v1If.Block(), v1If.Block().Succs[1]}: true}, nil)
-			for _, ci := range firstValueCall {
-				if reach[ci.Block()] {
-					ok = false
+			ret, isRet := v1Fail.Instrs[len(v1Fail.Instrs)-1].(*ssa.Return)
+			ok = isRet && len(ret.Results) == 2 && !isNilConst(ret.Results[1])
+			whyV1 = "a v1 payload of the wrong length is not refused with an error"
+			if ok {
+				// on v1 paths (isV2-true edges cut) decoding is reachable only through the gate's pass edge
+				cut := map[edge]bool{{v1If.Block(), v1Pass}: true}
+				for e := range v2True {
+					cut[e] = true
+				}
+				reach := reachFrom(rd.Blocks[0], cut, nil)
+				for _, ci := range valueCalls {
+					if reach[ci.Block()] {
+						ok = false
+						whyV1 = "the v1 exact-length gate does not precede decoding on the v1 path"
+					}
 				}
 			}
-			whyV1 = "the v1 exact-length gate does not dominate decoding on the v1 path"
 		}
 		r.Check(ok, "R4.2", "ReadWriter.Read v1 exact length", c.Pos(rd.Pos()), "v1 payload must have exactly sizeNormal bytes", whyV1)
+		// v2: zero extension of short payloads
+		var v2If *ssa.If
+		var long *ssa.BasicBlock
+		for _, iff := range ifsIn(rd) {
+			if _, fb, hit := succWhen(iff, "(len(arg0.Payload) < int(recv.sizeExtended))"); hit {
+				v2If, long = iff, fb
+			}
+		}
 		ok2 := v2If != nil
 		why2 := "no `len(payload) < sizeExtended` test on the v2 path: truncated payloads are decoded without zero extension (index panic)"
 		if ok2 {
-			ok2 = edgeMustPass(rd, edge{isV2If.Block(), isV2If.Block().Succs[0]}, v2If.Block())
-			// the value entering the loop on the true edge is an extension to sizeExtended
-			ext := false
+			var ext ssa.Instruction
 			for _, in := range allInstrs(rd) {
-				if !edgeMustPass(rd, edge{v2If.Block(), v2If.Block().Succs[0]}, in.Block()) {
-					continue
-				}
 				switch x := in.(type) {
 				case *ssa.MakeSlice:
 					if l := ex(x.Len); l == "int(recv.sizeExtended)" || l == "recv.sizeExtended" {
-						// the original bytes must be copied into it
 						for _, cc := range callsNamed(rd, "copy") {
 							if cc.Common().Args[0] == ssa.Value(x) && ex(cc.Common().Args[1]) == "arg0.Payload" {
-								ext = true
+								ext = cc
 							}
 						}
 					}
 				case *ssa.Call:
 					if calleeName(&x.Call) == "append" && strings.Contains(ex(x), "(int(recv.sizeExtended) - len(arg0.Payload))") {
-						ext = true
+						ext = x
 					}
 				}
 			}
-			if !ext {
+			if ext == nil {
 				ok2 = false
 				why2 = "a short v2 payload is not extended to sizeExtended bytes before decoding"
+			} else {
+				// on v2 paths with a short payload, decoding is reachable only through the extension
+				cut := map[edge]bool{{v2If.Block(), long}: true}
+				for e := range v2False {
+					cut[e] = true
+				}
+				reach := reachFrom(rd.Blocks[0], cut, map[*ssa.BasicBlock]bool{ext.Block(): true})
+				for _, ci := range valueCalls {
+					if reach[ci.Block()] {
+						ok2 = false
+						why2 = "on the v2 path a short payload can reach the field decoder without having been zero-extended"
+					}
+				}
 			}
 		}
 		r.Check(ok2, "R4.2", "ReadWriter.Read v2 zero extension", c.Pos(rd.Pos()), "short v2 payloads are extended to sizeExtended", why2)
@@ -215,7 +237,7 @@ func runC04(c *Ctx) {
 						// the truncated edge must be the isV2 true edge
 						pred := p.Block().Preds[i]
 						for _, iff := range ifsIn(wr) {
-							if ex(iff.Cond) == "arg1" && edgeMustPass(wr, edge{iff.Block(), iff.Block().Succs[0]}, pred) {
+							if tb, _, hit := succWhen(iff, "arg1"); hit && edgeMustPass(wr, edge{iff.Block(), tb}, pred) {
 								okT = true
 							}
 						}
@@ -234,38 +256,78 @@ func runC04(c *Ctx) {
 		if fn == nil {
 			continue
 		}
-		var floor, zero bool
-		var endPhi ssa.Value
-		for _, iff := range ifsIn(fn) {
-			b, ok := iff.Cond.(*ssa.BinOp)
-			if !ok {
-				continue
-			}
-			if k, isK := constInt(b.Y); isK && b.Op == token.GTR && k == 1 {
-				if _, isPhi := b.X.(*ssa.Phi); isPhi {
-					floor = true
-					endPhi = b.X
-				}
-			}
-			if k, isK := constInt(b.Y); isK && b.Op == token.EQL && k == 0 {
-				if u, isU := b.X.(*ssa.UnOp); isU {
-					if ia, isIA := u.X.(*ssa.IndexAddr); isIA && ia.X == ssa.Value(fn.Params[0]) {
-						if sb, isS := ia.Index.(*ssa.BinOp); isS && sb.Op == token.SUB {
-							if one, isOne := constInt(sb.Y); isOne && one == 1 {
-								zero = true
-							}
+		// offset-normalised loop model: loop variable v (decremented by one), returned high bound v+d, loop
+		// continues while v > F, byte tested at index v+e. Floor of one byte <=> F+d == 1; last byte <=> e == d-1.
+		var v *ssa.Phi
+		var dec ssa.Instruction
+		for _, in := range allInstrs(fn) {
+			if p, ok := in.(*ssa.Phi); ok {
+				for _, e := range p.Edges {
+					if b, ok := e.(*ssa.BinOp); ok && b.Op == token.SUB && b.X == ssa.Value(p) {
+						if one, isOne := constInt(b.Y); isOne && one == 1 {
+							v, dec = p, b
 						}
 					}
 				}
 			}
 		}
-		okRet := false
-		for _, ret := range retInstrs(fn) {
-			if sl, ok := ret.Results[0].(*ssa.Slice); ok && sl.X == ssa.Value(fn.Params[0]) && sl.Low == nil && sl.High == endPhi && endPhi != nil {
-				okRet = true
+		F, d, e := int64(-99), int64(-99), int64(-99)
+		contOnZero := false
+		if v != nil {
+			for _, iff := range ifsIn(fn) {
+				b, ok := iff.Cond.(*ssa.BinOp)
+				if !ok {
+					continue
+				}
+				if k, isK := constInt(b.Y); isK && b.X == ssa.Value(v) {
+					switch b.Op {
+					case token.GTR:
+						F = k
+					case token.GEQ:
+						F = k - 1
+					}
+				}
+				// zero test on buf[v+e]
+				var ld *ssa.UnOp
+				var other ssa.Value
+				if u, isU := b.X.(*ssa.UnOp); isU {
+					ld, other = u, b.Y
+				} else if u, isU := b.Y.(*ssa.UnOp); isU {
+					ld, other = u, b.X
+				}
+				if ld != nil && (b.Op == token.EQL || b.Op == token.NEQ) {
+					if z, isZ := constInt(other); isZ && z == 0 {
+						if ia, isIA := ld.X.(*ssa.IndexAddr); isIA && ia.X == ssa.Value(fn.Params[0]) {
+							if ia.Index == ssa.Value(v) {
+								e = 0
+							} else if sb, isS := ia.Index.(*ssa.BinOp); isS && sb.Op == token.SUB && sb.X == ssa.Value(v) {
+								if one, isOne := constInt(sb.Y); isOne {
+									e = -one
+								}
+							}
+							if tb, _, hit := succWhen(iff, "("+ex(ld)+" == 0)"); hit && edgeMustPass(fn, edge{iff.Block(), tb}, dec.Block()) {
+								contOnZero = true
+							}
+						}
+					}
+				}
+			}
+			for _, ret := range retInstrs(fn) {
+				if sl, ok := ret.Results[0].(*ssa.Slice); ok && sl.X == ssa.Value(fn.Params[0]) && sl.Low == nil {
+					if sl.High == ssa.Value(v) {
+						d = 0
+					} else if ab, isA := sl.High.(*ssa.BinOp); isA && ab.Op == token.ADD && ab.X == ssa.Value(v) {
+						if one, isOne := constInt(ab.Y); isOne {
+							d = one
+						}
+					}
+				}
 			}
 		}
-		r.Check(floor && zero && okRet, "R4.3", pk+" removeEmptyBytes", c.Pos(fn.Pos()), "strips trailing 0x00 while more than one byte remains", fmt.Sprintf("removeEmptyBytes shape wrong (floor `end > 1`: %v, tests last byte == 0: %v, returns buf[:end]: %v): payloads could be truncated to zero bytes or non-zero bytes stripped", floor, zero, okRet))
+		floor := v != nil && F+d == 1
+		zero := v != nil && e == d-1 && contOnZero
+		okRet := d >= 0
+		r.Check(floor && zero && okRet, "R4.3", pk+" removeEmptyBytes", c.Pos(fn.Pos()), "strips trailing 0x00 while more than one byte remains", fmt.Sprintf("removeEmptyBytes shape wrong (one-byte floor: %v, strips exactly while the last byte is 0: %v, returns a prefix of its argument: %v): payloads could be truncated to zero bytes or non-zero bytes stripped", floor, zero, okRet))
 	}
 	if fn := c.Fn("pkg/frame", "hasEmptyBytes"); fn != nil {
 		rets := retInstrs(fn)
